@@ -20,6 +20,7 @@ EXTENDS Integers, Sequences, FiniteSets, TLC, Json, ShText
 
 CONSTANTS MaxLen,     \* bound on the word length (BFS) / unused under -simulate (-depth bounds it)
           Alphabet,   \* sequence of 1-char strings
+          Menus,      \* BOOLEAN: also evaluate the menus (fixed words, sequence product, symbolic templates)
           Cap         \* lists longer than this are not materialised (only their Count is given)
 
 VARIABLE w
@@ -27,10 +28,10 @@ vars == <<w>>
 
 AlphaFull  == <<"{", "}", ",", ".", "0", "1", "2", "a", "b", "-", "\\", "$">>
 AlphaSmall == <<"{", "}", ",", ".", "1", "a", "\\", "$">>
+\* simulation: the structural characters are three times as likely
+AlphaSim   == <<"{", "{", "{", "}", "}", "}", ",", ",", ",", ".", ".", ".", "0", "1", "2", "a", "b", "-", "\\", "$">>
 Limit == 16384
 
-Letters == {"a","b","c","d","e","f","g","h","i","j","k","l","m","n","o","p","q","r","s","t","u","v","w","x","y","z",
-            "A","B","C","D","E","F","G","H","I","J","K","L","M","N","O","P","Q","R","S","T","U","V","W","X","Y","Z"}
 OrdL(c) ==
   CASE c = "a" -> 97
     [] c = "b" -> 98
@@ -84,6 +85,9 @@ OrdL(c) ==
     [] c = "X" -> 88
     [] c = "Y" -> 89
     [] c = "Z" -> 90
+    [] OTHER -> 0
+IsLetter(c) == OrdL(c) # 0
+IsDig(c) == c = "0" \/ c = "1" \/ c = "2" \/ c = "3" \/ c = "4" \/ c = "5" \/ c = "6" \/ c = "7" \/ c = "8" \/ c = "9"
 At(t, i) == IF i >= 1 /\ i <= Len(t) THEN t[i] ELSE "NUL"
 
 (* ------------------------------------------------------------------ scanning
@@ -132,7 +136,7 @@ HasComma(a, j) ==
 DigitSeq == <<"0", "1", "2", "3", "4", "5", "6", "7", "8", "9">>
 DigitVal == [c \in {"0","1","2","3","4","5","6","7","8","9"} |->
                (CHOOSE i \in 1..10 : DigitSeq[i] = c) - 1]
-AllDigits(s) == s # <<>> /\ \A i \in 1..Len(s) : IsDigit(s[i])
+AllDigits(s) == s # <<>> /\ \A i \in 1..Len(s) : IsDig(s[i])
 Signed(s)    == s # <<>> /\ s[1] \in {"-", "+"}
 Unsign(s)    == IF Signed(s) THEN Tail(s) ELSE s
 IsNum(s)     == AllDigits(Unsign(s))             \* [+-]?[0-9]+
@@ -143,7 +147,7 @@ NumVal(s) == IF s[1] = "-" THEN 0 - NatVal(Tail(s)) ELSE NatVal(Unsign(s))
 RECURSIVE MaxDigitRun(_, _, _)
 MaxDigitRun(t, i, run) ==
   IF i > Len(t) THEN run
-  ELSE IF IsDigit(t[i]) THEN MaxDigitRun(t, i + 1, run + 1)
+  ELSE IF IsDig(t[i]) THEN MaxDigitRun(t, i + 1, run + 1)
   ELSE LET r == MaxDigitRun(t, i + 1, 0) IN IF r > run THEN r ELSE run
 InModel(t) == MaxDigitRun(t, 1, 0) <= 9
 
@@ -174,11 +178,11 @@ FirstDots(s) ==
 
 \* length of the longest prefix of r of the form [+-]?[0-9]+ (0 if none)
 RECURSIVE DigitsPrefix(_, _)
-DigitsPrefix(r, i) == IF i <= Len(r) /\ IsDigit(r[i]) THEN DigitsPrefix(r, i + 1) ELSE i - 1
+DigitsPrefix(r, i) == IF i <= Len(r) /\ IsDig(r[i]) THEN DigitsPrefix(r, i + 1) ELSE i - 1
 NumPrefix(r) ==
   IF r = <<>> THEN 0
-  ELSE IF IsDigit(r[1]) THEN DigitsPrefix(r, 1)
-  ELSE IF r[1] \in {"-", "+"} /\ Len(r) >= 2 /\ IsDigit(r[2]) THEN DigitsPrefix(r, 2)
+  ELSE IF IsDig(r[1]) THEN DigitsPrefix(r, 1)
+  ELSE IF r[1] \in {"-", "+"} /\ Len(r) >= 2 /\ IsDig(r[2]) THEN DigitsPrefix(r, 2)
   ELSE 0
 
 LeadZero(s) == (Len(s) > 1 /\ s[1] = "0") \/ (Len(s) > 2 /\ s[1] = "-" /\ s[2] = "0")
@@ -197,10 +201,10 @@ SeqTerm(am) ==
     IF lhs = <<>> \/ r = <<>> THEN lit
     ELSE
       LET lnum == IsNum(lhs)
-          lchr == Len(lhs) = 1 /\ lhs[1] \in Letters
+          lchr == Len(lhs) = 1 /\ IsLetter(lhs[1])
           np   == NumPrefix(r)
           rnum == np > 0
-          rchr == np = 0 /\ r[1] \in Letters /\ (Len(r) = 1 \/ r[2] = ".")
+          rchr == np = 0 /\ IsLetter(r[1]) /\ (Len(r) = 1 \/ r[2] = ".")
           rl   == IF rnum THEN np ELSE 1            \* length of the right end
           rhs  == SubSeq(r, 1, rl)
           ep   == SubSeq(r, rl + 1, Len(r))         \* what follows the right end
@@ -246,7 +250,7 @@ Split(t) == SplitQ(FALSE, t)
 \* Pre(w) marks the boundaries: "SEP" (zero width) ends a $name / $digit / $$ / $-, and a "$" that
 \* is literal in the original word becomes the ordinary character "DOLLAR".
 RECURSIVE NameEnd0(_, _)
-NameEnd0(u, i) == IF i <= Len(u) /\ (u[i] \in Letters \/ IsDigit(u[i]) \/ u[i] = "_") THEN NameEnd0(u, i + 1) ELSE i - 1
+NameEnd0(u, i) == IF i <= Len(u) /\ (IsLetter(u[i]) \/ IsDig(u[i]) \/ u[i] = "_") THEN NameEnd0(u, i + 1) ELSE i - 1
 RECURSIVE Pre(_)
 Pre(u) ==
   IF u = <<>> THEN <<>>
@@ -254,15 +258,16 @@ Pre(u) ==
     IF c = "\\" THEN (IF Len(u) = 1 THEN u ELSE SubSeq(u, 1, 2) \o Pre(SubSeq(u, 3, Len(u))))
     ELSE IF c = "$" THEN
       LET d == At(u, 2) IN
-      IF d \in Letters \/ d = "_" THEN
+      IF IsLetter(d) \/ d = "_" THEN
         LET e == NameEnd0(u, 2) IN SubSeq(u, 1, e) \o <<"SEP">> \o Pre(SubSeq(u, e + 1, Len(u)))
-      ELSE IF IsDigit(d) \/ d \in {"$", "-"} THEN SubSeq(u, 1, 2) \o <<"SEP">> \o Pre(SubSeq(u, 3, Len(u)))
+      ELSE IF IsDig(d) \/ d \in {"$", "-"} THEN SubSeq(u, 1, 2) \o <<"SEP">> \o Pre(SubSeq(u, 3, Len(u)))
       ELSE IF d = "{" THEN <<c>> \o Pre(Tail(u))
       ELSE <<"DOLLAR">> \o Pre(Tail(u))
     ELSE <<c>> \o Pre(Tail(u))
 RECURSIVE Strip(_)
 Strip(u) == IF u = <<>> THEN <<>>
-            ELSE (IF u[1] = "SEP" THEN <<>> ELSE IF u[1] = "DOLLAR" THEN <<"$">> ELSE <<u[1]>>) \o Strip(Tail(u))
+            ELSE (CASE u[1] = "SEP" -> <<>> [] u[1] = "DOLLAR" -> <<"$">> [] u[1] = "BSLASH" -> <<"\\">>
+               [] u[1] = "BTICK" -> <<"`">> [] OTHER -> <<u[1]>>) \o Strip(Tail(u))
 
 RECURSIVE Printed(_), JoinAlts(_)
 Printed(items) ==
@@ -307,13 +312,18 @@ Prod(A, B) ==
   LET lb == Len(B) IN
   [x \in 1..(Len(A) * lb) |-> A[((x - 1) \div lb) + 1] \o B[((x - 1) % lb) + 1]]
 Chr(n) == IF n >= 32 /\ n <= 126 THEN AsciiPrintable[n - 31] ELSE "NUL"
+\* A letter sequence can pass through the backslash and the backquote ({Z..a}).  They are marked as
+\* produced by a sequence: bash reads its results again, so the backslash quotes what follows and
+\* the backquote opens a command substitution; Dev_SeqCharsNotReparsed: in mvdan/sh both are
+\* ordinary characters.
+SeqChr(v) == IF v = 92 THEN "BSLASH" ELSE IF v = 96 THEN "BTICK" ELSE Chr(v)
 SeqMat(n) ==
   LET dir == IF n.a <= n.b THEN 1 ELSE 0 - 1 IN
   [x \in 1..SeqN(n) |->
      LET v == n.a + dir * n.inc * (x - 1) IN
      CASE n.ty = "int"  -> IntText(v)
        [] n.ty = "zint" -> PadText(v, n.wd)
-       [] n.ty = "chr"  -> <<Chr(v)>>]
+       [] n.ty = "chr"  -> <<SeqChr(v)>>]
 RECURSIVE Mat(_), MatAlts(_)
 Mat(items) ==
   IF items = <<>> THEN << <<>> >>
@@ -332,45 +342,48 @@ Expand(t)   == Mat(Split(t))
    $1=P $2=Q, every other name unset.  obs = FALSE when the word uses something whose
    value is not fixed by this module ($0 $$ $- ${...} other than ${name}, a lone trailing
    backslash). *)
-NameChar(c) == c \in Letters \/ IsDigit(c) \/ c = "_"
+NameChar(c) == IsLetter(c) \/ IsDig(c) \/ c = "_"
 RECURSIVE NameEnd(_, _)
 NameEnd(u, i) == IF i <= Len(u) /\ NameChar(u[i]) THEN NameEnd(u, i + 1) ELSE i - 1
 VarVal(name) == IF name = <<"a">> THEN <<"A">> ELSE IF name = <<"b">> THEN <<"B">>
                 ELSE IF name = <<"1">> THEN <<"P">> ELSE IF name = <<"2">> THEN <<"Q">> ELSE <<>>
-RECURSIVE Fin(_)
-Fin(u) ==
+Real(c) == CASE c = "DOLLAR" -> "$" [] c = "BSLASH" -> "\\" [] c = "BTICK" -> "`" [] OTHER -> c
+RECURSIVE Fin(_, _)
+Fin(L, u) ==
   IF u = <<>> THEN [obs |-> TRUE, s |-> <<>>]
   ELSE LET c == u[1] IN
-    IF c = "\\" THEN
+    IF c = "\\" \/ (c = "BSLASH" /\ ~L) THEN
       IF Len(u) = 1 THEN [obs |-> FALSE, s |-> <<>>]
-      ELSE LET r == Fin(SubSeq(u, 3, Len(u))) IN [obs |-> r.obs, s |-> <<u[2]>> \o r.s]
+      ELSE LET r == Fin(L, SubSeq(u, 3, Len(u))) IN [obs |-> r.obs, s |-> <<Real(u[2])>> \o r.s]
     ELSE IF c = "$" THEN
       LET d == At(u, 2) IN
-      IF d \in Letters \/ d = "_" THEN
+      IF IsLetter(d) \/ d = "_" THEN
         LET e == NameEnd(u, 2)
-            r == Fin(SubSeq(u, e + 1, Len(u))) IN
+            r == Fin(L, SubSeq(u, e + 1, Len(u))) IN
         [obs |-> r.obs, s |-> VarVal(SubSeq(u, 2, e)) \o r.s]
       ELSE IF d \in {"1", "2"} THEN
-        LET r == Fin(SubSeq(u, 3, Len(u))) IN [obs |-> r.obs, s |-> VarVal(<<d>>) \o r.s]
-      ELSE IF IsDigit(d) \/ d \in {"-", "$"} THEN [obs |-> FALSE, s |-> <<>>]
+        LET r == Fin(L, SubSeq(u, 3, Len(u))) IN [obs |-> r.obs, s |-> VarVal(<<d>>) \o r.s]
+      ELSE IF IsDig(d) \/ d \in {"-", "$"} THEN [obs |-> FALSE, s |-> <<>>]
       ELSE IF d = "{" THEN
         LET e == NameEnd(u, 3) IN
-        IF e >= 3 /\ At(u, e + 1) = "}" /\ (u[3] \in Letters \/ u[3] = "_" \/ (e = 3 /\ u[3] \in {"1", "2"}))
-        THEN LET r == Fin(SubSeq(u, e + 2, Len(u))) IN
+        IF e >= 3 /\ At(u, e + 1) = "}" /\ (IsLetter(u[3]) \/ u[3] = "_" \/ (e = 3 /\ u[3] \in {"1", "2"}))
+        THEN LET r == Fin(L, SubSeq(u, e + 2, Len(u))) IN
              [obs |-> r.obs, s |-> VarVal(SubSeq(u, 3, e)) \o r.s]
         ELSE [obs |-> FALSE, s |-> <<>>]
-      ELSE LET r == Fin(Tail(u)) IN [obs |-> r.obs, s |-> <<"$">> \o r.s]
-    ELSE IF c = "SEP" THEN Fin(Tail(u))
-    ELSE LET r == Fin(Tail(u)) IN [obs |-> r.obs, s |-> <<(IF c = "DOLLAR" THEN "$" ELSE c)>> \o r.s]
+      ELSE LET r == Fin(L, Tail(u)) IN [obs |-> r.obs, s |-> <<"$">> \o r.s]
+    ELSE IF c = "SEP" THEN Fin(L, Tail(u))
+    ELSE IF c = "BTICK" /\ ~L THEN [obs |-> FALSE, s |-> <<>>]     \* opens a command substitution
+    ELSE LET r == Fin(L, Tail(u)) IN
+         [obs |-> r.obs, s |-> <<Real(c)>> \o r.s]
 
 \* the fields printf receives: empty unquoted results vanish
-RECURSIVE FinList(_)
+RECURSIVE FinList(_, _)
 \* keep = the same list with the empty ones kept (used by Dev_EmptyBraceWordKept: mvdan/sh keeps
 \* some of the empty words a brace expansion produces as empty fields)
-FinList(ws) ==
+FinList(L, ws) ==
   IF ws = <<>> THEN [obs |-> TRUE, l |-> <<>>, keep |-> <<>>]
-  ELSE LET f == Fin(Head(ws))
-           r == FinList(Tail(ws)) IN
+  ELSE LET f == Fin(L, Head(ws))
+           r == FinList(L, Tail(ws)) IN
        [obs |-> f.obs /\ r.obs, l |-> (IF f.s = <<>> THEN <<>> ELSE <<f.s>>) \o r.l, keep |-> <<f.s>> \o r.keep]
 
 (* ------------------------------------------------------------------ builder *)
@@ -400,14 +413,14 @@ Laws(w0, t, n, big, ex) ==
   \* SuffixLaw: appending an ordinary character appends it to every result
   /\ ((w0 # <<>> /\ w0[Len(w0)] \in {"a", "b"}) =>
         LET t0 == Split(SubSeq(w0, 1, Len(w0) - 1)) IN
-        Count(t0) = n /\ (big \/ LET m0 == Mat(t0) IN ex = [i \in 1..Len(m0) |-> Append(m0[i], w0[Len(w0)])]))
+        Count(t0) = n /\ (big \/ LET m0 == Mat(t0) IN ex = [i \in 1..Len(m0) |-> Append(Strip(m0[i]), w0[Len(w0)])]))
 
 \* everything the binding compares, for one way of splitting the word
-Out(t) ==
+Out(L, t) ==
   LET n == Count(t)
       big == n > Cap
       ex == IF big THEN <<>> ELSE Mat(t)
-      f == IF big THEN [obs |-> FALSE, l |-> <<>>, keep |-> <<>>] ELSE FinList(ex)
+      f == IF big THEN [obs |-> FALSE, l |-> <<>>, keep |-> <<>>] ELSE FinList(L, ex)
   IN [has |-> AnyBrace(t), count |-> n, big |-> big, exp |-> [i \in 1..Len(ex) |-> Strip(ex[i])],
       obs |-> f.obs, fin |-> f.l, finkeep |-> f.keep]
 
@@ -416,27 +429,268 @@ Vec(w0) ==
   IF ~InModel(w0) THEN [w |-> w0, inmodel |-> FALSE]
   ELSE
   LET t == Split(w0)
-      o == Out(t)
+      o == Out(FALSE, t)
       pw == Pre(w0)
-      o1 == Out(SplitQ(TRUE, w0))
-      o2 == IF pw = w0 THEN o ELSE Out(SplitQ(FALSE, pw))
-      o3 == IF pw = w0 THEN o1 ELSE Out(SplitQ(TRUE, pw))
-      devs == (IF o1 = o THEN <<>> ELSE <<[name |-> "Dev_FirstCloseWins"] @@ o1>>)
+      o1 == Out(FALSE, SplitQ(TRUE, w0))
+      o2 == IF pw = w0 THEN o ELSE Out(FALSE, SplitQ(FALSE, pw))
+      o3 == IF pw = w0 THEN o1 ELSE Out(FALSE, SplitQ(TRUE, pw))
+      \* without a "{" every way of splitting gives the same single literal
+      devs == IF ~HasBraceChar(w0) THEN <<>> ELSE
+              (IF o1 = o THEN <<>> ELSE <<[name |-> "Dev_FirstCloseWins"] @@ o1>>)
               \o (IF o2 = o THEN <<>> ELSE <<[name |-> "Dev_ParamBoundBeforeBraces"] @@ o2>>)
               \o (IF o3 = o \/ o3 = o1 \/ o3 = o2 THEN <<>>
                   ELSE <<[name |-> "Dev_FirstCloseWins+Dev_ParamBoundBeforeBraces"] @@ o3>>)
+              \o (LET o4 == Out(TRUE, t) IN IF o4 = o THEN <<>> ELSE <<[name |-> "Dev_SeqCharsNotReparsed"] @@ o4>>)
   IN IF Laws(w0, t, o.count, o.big, o.exp)
      THEN [w |-> w0, inmodel |-> TRUE, hasch |-> HasBraceChar(w0), trail |-> TrailBs(w0, 1),
            printed |-> Printed(t), dropped |-> PrintedDropping(t), devs |-> devs] @@ o
      ELSE [w |-> w0, lawbroken |-> TRUE]
 
+MenuWords == <<
+  <<"{", "1", ".", ".", "1", "6", "3", "8", "4", "}">>,
+  <<"{", "1", ".", ".", "1", "6", "3", "8", "5", "}">>,
+  <<"{", "0", ".", ".", "1", "6", "3", "8", "4", "}">>,
+  <<"{", "1", ".", ".", "1", "2", "8", "}", "{", "1", ".", ".", "1", "2", "8", "}">>,
+  <<"{", "1", ".", ".", "1", "2", "8", "}", "{", "0", ".", ".", "1", "2", "8", "}">>,
+  <<"{", "a", ",", "b", "}", "{", "1", ".", ".", "8", "1", "9", "2", "}">>,
+  <<"{", "a", ",", "b", "}", "{", "0", ".", ".", "8", "1", "9", "2", "}">>,
+  <<"{", "{", "1", ".", ".", "9", "0", "0", "0", "}", ",", "{", "1", ".", ".", "9", "0", "0", "0", "}", "}">>,
+  <<"{", "1", ".", ".", "2", "0", "0", "0", "0", ".", ".", "2", "}">>,
+  <<"{", "1", ".", ".", "4", "0", "0", "0", "0", ".", ".", "2", "}">>,
+  <<"{", "-", "8", "1", "9", "2", ".", ".", "8", "1", "9", "2", "}">>,
+  <<"{", "-", "8", "1", "9", "1", ".", ".", "8", "1", "9", "2", "}">>,
+  <<"{", "1", ".", ".", "1", "0", "0", "}", "{", "1", ".", ".", "1", "0", "0", "}", "{", "1", ".", ".", "1", "0", "0", "}">>,
+  <<"{", "X", ".", ".", "c", "}">>,
+  <<"{", "c", ".", ".", "X", "}">>,
+  <<"{", "a", ".", ".", "Z", "}">>,
+  <<"{", "Z", ".", ".", "a", ".", ".", "3", "}">>,
+  <<"{", "A", ".", ".", "z", ".", ".", "1", "0", "}">>,
+  <<"{", "a", ".", ".", "z", "}">>,
+  <<"{", "a", ".", ".", "z", ".", ".", "-", "2", "}">>,
+  <<"{", "z", ".", ".", "a", ".", ".", "0", "}">>,
+  <<"{", "a", ".", ".", "a", "}">>,
+  <<"{", "b", ".", ".", "a", ".", ".", "5", "}">>,
+  <<"{", "+", "1", ".", ".", "3", "}">>,
+  <<"{", "1", ".", ".", "+", "3", "}">>,
+  <<"{", "+", "1", ".", ".", "+", "3", ".", ".", "+", "2", "}">>,
+  <<"{", "-", "1", ".", ".", "+", "1", "}">>,
+  <<"{", "+", "0", "1", ".", ".", "3", "}">>,
+  <<"{", "1", ".", ".", "3", ".", ".", "+", "0", "}">>,
+  <<"{", "+", "-", "1", ".", ".", "3", "}">>,
+  <<"{", "1", ".", ".", "3", ".", ".", "-", "-", "1", "}">>,
+  <<"{", "0", "1", ".", ".", "1", "0", "}">>,
+  <<"{", "1", ".", ".", "0", "1", "0", "}">>,
+  <<"{", "-", "0", "5", ".", ".", "5", ".", ".", "5", "}">>,
+  <<"{", "-", "0", "1", ".", ".", "1", "}">>,
+  <<"{", "0", "0", "1", ".", ".", "-", "1", "}">>,
+  <<"{", "0", ".", ".", "0", "0", "}">>,
+  <<"{", "0", "0", ".", ".", "0", "}">>,
+  <<"{", "-", "0", ".", ".", "1", "}">>,
+  <<"{", "-", "0", "0", ".", ".", "1", "}">>,
+  <<"{", "1", "0", ".", ".", "0", "8", "}">>,
+  <<"{", "0", "0", "8", ".", ".", "1", "0", ".", ".", "1", "}">>,
+  <<"{", "-", "1", ".", ".", "-", "0", "1", "0", ".", ".", "3", "}">>,
+  <<"{", "0", "9", "9", ".", ".", "1", "0", "1", "}">>,
+  <<"{", "-", "9", ".", ".", "0", "1", "0", "}">>,
+  <<"{", "1", ".", ".", "1", "0", ".", ".", "3", "}">>,
+  <<"{", "1", "0", ".", ".", "1", ".", ".", "3", "}">>,
+  <<"{", "1", ".", ".", "1", "0", ".", ".", "-", "3", "}">>,
+  <<"{", "1", "0", ".", ".", "1", ".", ".", "-", "3", "}">>,
+  <<"{", "1", ".", ".", "2", ".", ".", "3", ".", ".", "4", "}">>,
+  <<"{", "1", ".", "5", ".", ".", "2", "}">>,
+  <<"{", "1", ".", ".", "a", "}">>,
+  <<"{", "a", ".", ".", "1", "}">>,
+  <<"{", "a", "a", ".", ".", "b", "}">>,
+  <<"{", "a", ".", ".", "b", "b", "}">>,
+  <<"{", "1", ".", ".", "2", ".", ".", "a", "}">>,
+  <<"{", "a", ".", ".", "b", ".", ".", "c", "}">>,
+  <<"{", ".", ".", "}">>,
+  <<"{", "1", ".", ".", "}">>,
+  <<"{", ".", ".", "1", "}">>,
+  <<"{", "1", ".", ".", ".", "3", "}">>,
+  <<"{", "1", ".", ".", "3", ".", ".", "}">>,
+  <<"{", "1", ".", ".", "3", ".", ".", ".", "2", "}">>,
+  <<"{", "a", ",", "b", "}", "{", "c", ",", "d", "}">>,
+  <<"{", "a", ",", "b", "}", "{", "c", ",", "d", "}", "{", "e", ",", "f", "}">>,
+  <<"{", "{", "a", ",", "b", "}", ",", "{", "c", ",", "d", "}", "}">>,
+  <<"{", "a", ",", "{", "b", ",", "c", "}", ",", "d", "}">>,
+  <<"a", "{", "b", ",", "{", "c", ",", "d", "}", "e", "}", "f">>,
+  <<"{", "a", ",", "b", "}", "{", "1", ".", ".", "3", "}">>,
+  <<"{", "1", ".", ".", "3", "}", "{", "a", ",", "b", "}">>,
+  <<"{", "a", ".", ".", "c", "}", "{", "1", ".", ".", "2", "}">>,
+  <<"{", "{", "1", ".", ".", "3", "}", ",", "{", "a", ".", ".", "c", "}", "}">>,
+  <<"{", "a", ",", "b", "{", "1", ".", ".", "2", "}", "c", ",", "d", "}">>,
+  <<"x", "{", "}", "a", ",", "b", "}">>,
+  <<"{", "}", "{", "a", ",", "b", "}">>,
+  <<"{", "a", ",", "b", "}", "{", "}">>,
+  <<"{", "{", "}", ",", "a", "}">>,
+  <<"{", "a", "}", "{", "b", ",", "c", "}">>,
+  <<"{", "a", "}", ",", "b", "}">>,
+  <<"a", "{", "b", "}", "c", ",", "d", "}">>,
+  <<"{", "a", "{", "b", "}", ",", "c", "}">>,
+  <<"{", "{", "a", "}", ",", "b", "}">>,
+  <<"{", "a", ",", "b", "}", "}">>,
+  <<"{", "{", "a", ",", "b", "}">>,
+  <<"{", "a", ",", "b">>,
+  <<"{", "a", ",", "b", "}", "{">>,
+  <<"}", "{", "a", ",", "b", "}", "{">>,
+  <<"{", "a", "\\", ",", "b", ",", "c", "}">>,
+  <<"\\", "{", "a", ",", "b", "}">>,
+  <<"{", "a", ",", "b", "\\", "}">>,
+  <<"{", "a", ",", "b", "}", "\\", "}">>,
+  <<"{", "a", "\\", ".", ".", "c", "}">>,
+  <<"{", "1", "\\", ".", ".", "3", "}">>,
+  <<"{", "\\", "1", ".", ".", "3", "}">>,
+  <<"\\", "{", "1", ".", ".", "3", "}">>,
+  <<"{", "a", ",", "\\", "{", "b", ",", "c", "}">>,
+  <<"{", "a", ",", "b", "\\", "\\", "}">>,
+  <<"{", "1", ".", ".", "2", ",", "3", "}">>,
+  <<"{", "1", ",", "2", ".", ".", "3", "}">>,
+  <<"{", "1", ".", ".", "2", "}", ".", ".", "{", "3", ",", "4", "}">>,
+  <<"{", ",", "}">>,
+  <<"{", ",", ",", "}">>,
+  <<"x", "{", ",", "}", "y">>,
+  <<"{", "a", ",", "}">>,
+  <<"{", ",", "a", "}">>,
+  <<"{", ",", "}", "{", ",", "}">>,
+  <<"{", ",", "{", ",", "}", "}">>,
+  <<"$", "{", "a", ",", "b", "}">>,
+  <<"$", "a", "{", "b", ",", "c", "}">>,
+  <<"{", "$", "a", ",", "b", "}">>,
+  <<"{", "a", ",", "$", "b", "}", "c">>,
+  <<"{", ",", "$", "}", "1">>,
+  <<"{", "$", ",", "}", "a">>,
+  <<"$", "$", "{", ",", "}">>,
+  <<"$", "{", "a", "}", "{", "b", ",", "c", "}">>,
+  <<"{", "a", ",", "b", "}", "$", "{", "b", "}">>,
+  <<"{", "$", "{", "a", "}", ",", "x", "}">>,
+  <<"$", "1", "{", "$", "2", ",", "x", "}">>,
+  <<"{", "a", ",", "b", "}", "$">>,
+  <<"{", "$", "}">>,
+  <<"{", "$", "a", ".", ".", "$", "b", "}">>,
+  <<"{", "0", ".", ".", "2", "2", "2", "2", "2", "2", "2", "2", "2", "}">>,
+  <<"{", "0", ".", ".", "2", "2", "2", "2", "2", "2", "2", "2", "2", ".", ".", "1", "1", "1", "1", "1", "1", "1", "1", "1", "}">>,
+  <<"{", "-", "2", "2", "2", "2", "2", "2", "2", "2", "2", ".", ".", "2", "2", "2", "2", "2", "2", "2", "2", "2", ".", ".", "2", "2", "2", "2", "2", "2", "2", "2", "2", "}">>,
+  <<"{", "1", ".", ".", "1", "2", "3", "4", "5", "6", "7", "8", "9", "0", "}">> >>
+
+(* ------------------------------------------------------------------ menus
+   MenuWords: fixed words outside the builder's alphabet/length (limit clause, letters beyond
+   a b, "+" signs, padding widths, nesting, escapes, $-forms); they go through the same Vec.
+
+   Symbolic templates: sequences whose ends lie next to the int64 limits.  TLC integers are
+   32-bit, so such a number is the pair [base, off] = Min+off | off | Max+off with a small off;
+   the binding renders it in decimal.  The rule is the same mathematical sequence as above:
+   from a towards b in steps of |inc|, never past b, *no wrap-around*; a number outside int64
+   is not a number (the braces stay literal), and bash rejects the increment Min. *)
+Sym(base, off) == [base |-> base, off |-> off]
+SymValid(x) == x.base = "zero" \/ (x.base = "max" /\ x.off <= 0) \/ (x.base = "min" /\ x.off >= 0)
+Tmpl(pre, a, b, inc, post) == [pre |-> pre, a |-> a, b |-> b, inc |-> inc, post |-> post]
+NoInc == Sym("none", 0)
+SymTemplates == <<
+  Tmpl(<<>>, Sym("max", -1), Sym("max", 0), NoInc, <<>>),
+  Tmpl(<<>>, Sym("max", 0), Sym("max", -2), NoInc, <<>>),
+  Tmpl(<<>>, Sym("min", 0), Sym("min", 1), NoInc, <<>>),
+  Tmpl(<<>>, Sym("min", 2), Sym("min", 0), NoInc, <<>>),
+  Tmpl(<<>>, Sym("max", -3), Sym("max", 0), Sym("zero", 2), <<>>),
+  Tmpl(<<>>, Sym("max", -2), Sym("max", 0), Sym("zero", 2), <<>>),
+  Tmpl(<<>>, Sym("min", 3), Sym("min", 0), Sym("zero", 2), <<>>),
+  Tmpl(<<>>, Sym("min", 3), Sym("min", 0), Sym("zero", -3), <<>>),
+  Tmpl(<<>>, Sym("max", -1), Sym("max", 0), Sym("max", 0), <<>>),
+  Tmpl(<<>>, Sym("zero", 0), Sym("zero", 1), Sym("max", 0), <<>>),
+  Tmpl(<<>>, Sym("zero", 5), Sym("zero", 1), Sym("min", 1), <<>>),
+  Tmpl(<<>>, Sym("zero", 1), Sym("max", 1), NoInc, <<>>),
+  Tmpl(<<>>, Sym("min", -1), Sym("zero", 0), NoInc, <<>>),
+  Tmpl(<<>>, Sym("zero", 1), Sym("zero", 3), Sym("max", 1), <<>>),
+  Tmpl(<<>>, Sym("zero", 1), Sym("zero", 3), Sym("min", 0), <<>>),
+  Tmpl(<<>>, Sym("zero", 3), Sym("zero", 1), Sym("min", 0), <<>>),
+  Tmpl(<<"a">>, Sym("max", -1), Sym("max", 0), NoInc, <<"b">>),
+  Tmpl(<<"x">>, Sym("max", -1), Sym("max", 0), NoInc, <<"{", "a", ",", "b", "}">>),
+  Tmpl(<<"{", "a", ",", "b", "}">>, Sym("min", 1), Sym("min", 0), NoInc, <<>>),
+  Tmpl(<<>>, Sym("max", -40), Sym("max", 0), Sym("zero", 7), <<"{", "1", ".", ".", "2", "}">>),
+  Tmpl(<<>>, Sym("max", 0), Sym("max", 0), NoInc, <<>>),
+  Tmpl(<<>>, Sym("min", 0), Sym("min", 0), Sym("zero", 0), <<>>) >>
+
+SymLess(x, y) ==
+  LET r(b) == IF b = "min" THEN 0 ELSE IF b = "zero" THEN 1 ELSE 2 IN
+  r(x.base) < r(y.base) \/ (x.base = y.base /\ x.off < y.off)
+\* the numbers of the sequence, or <<>> when the braces stay literal;  scope = FALSE when the ends
+\* are so far apart that bash refuses for memory reasons (not modelled)
+SymSeq(a, b, inc) ==
+  LET hasInc == inc.base # "none"
+      okNums == SymValid(a) /\ SymValid(b) /\ (hasInc => SymValid(inc))
+      incMin == hasInc /\ inc.base = "min" /\ inc.off = 0
+      hugeInc == hasInc /\ inc.base # "zero"
+      step == IF ~hasInc \/ hugeInc \/ inc.off = 0 THEN 1 ELSE Abs(inc.off)
+  IN IF ~okNums THEN [scope |-> TRUE, nums |-> <<>>]
+     ELSE IF incMin /\ SymLess(a, b) THEN [scope |-> TRUE, nums |-> <<>>]
+     ELSE IF a.base # b.base THEN [scope |-> FALSE, nums |-> <<>>]
+     ELSE IF hugeInc THEN [scope |-> TRUE, nums |-> <<a>>]
+     ELSE LET d == Abs(b.off - a.off)
+              dir == IF a.off <= b.off THEN 1 ELSE 0 - 1
+          IN [scope |-> TRUE, nums |-> [k \in 1..((d \div step) + 1) |-> Sym(a.base, a.off + dir * step * (k - 1))]]
+\* a template word / result is a sequence of tokens: 1-char strings and symbolic numbers
+SymWord(t) == t.pre \o <<"{", t.a, ".", ".", t.b>>
+              \o (IF t.inc.base = "none" THEN <<>> ELSE <<".", ".", t.inc>>) \o <<"}">> \o t.post
+SymVec(t) ==
+  LET sq == SymSeq(t.a, t.b, t.inc)
+      pres == Mat(Split(t.pre))
+      posts == Mat(Split(t.post))
+      mid == IF sq.nums = <<>>
+             THEN << <<"{", t.a, ".", ".", t.b>> \o (IF t.inc.base = "none" THEN <<>> ELSE <<".", ".", t.inc>>) \o <<"}">> >>
+             ELSE [k \in 1..Len(sq.nums) |-> <<sq.nums[k]>>]
+      n == Len(sq.nums)
+      \* the number after the last one would lie outside int64 (where a careless loop wraps around)
+      wraprisk == \/ (t.inc.base \notin {"none", "zero"})
+                  \/ (n > 0 /\ LET st == IF t.inc.base = "none" \/ t.inc.off = 0 THEN 1 ELSE Abs(t.inc.off)
+                                    dir == IF t.a.off <= t.b.off THEN 1 ELSE 0 - 1
+                                IN ~SymValid(Sym(sq.nums[n].base, sq.nums[n].off + dir * st)))
+  IN [word |-> SymWord(t), scope |-> sq.scope, literal |-> sq.nums = <<>>, wraprisk |-> wraprisk,
+      exp |-> Prod(Prod(pres, mid), posts),
+      \* laws: every number is a valid int64, the first is a, none lies beyond b
+      lawok |-> \A k \in 1..Len(sq.nums) :
+                  /\ SymValid(sq.nums[k])
+                  /\ (k = 1 => sq.nums[k] = t.a)
+                  /\ ~(SymLess(t.a, t.b) /\ SymLess(t.b, sq.nums[k]))
+                  /\ ~(SymLess(t.b, t.a) /\ SymLess(sq.nums[k], t.b))]
+SymVecs == [i \in 1..Len(SymTemplates) |-> SymVec(SymTemplates[i])]
+MenuVecs == [i \in 1..Len(MenuWords) |-> [menu |-> TRUE] @@ Vec(MenuWords[i])]
+
+(* Sequence menu: every {x..y} and {x..y..z} with x, y from SeqEnds and z from SeqIncs, bare and
+   inside x_y; the product is enumerated by TLC and spread over the states of length 1. *)
+SeqEnds == << <<"0">>, <<"1">>, <<"2">>, <<"3">>, <<"0", "0">>, <<"0", "1">>, <<"0", "3">>, <<"1", "0">>, <<"-", "1">>, <<"-", "0">>, <<"-", "0", "0">>, <<"-", "0", "1">>, <<"-", "3">>, <<"a">>, <<"b">>, <<"c">>, <<"Z">>, <<>>, <<"1", "a">>, <<"a", "a">>, <<"-">> >>
+SeqIncs == << <<"0">>, <<"1">>, <<"2">>, <<"-", "1">>, <<"-", "2">>, <<"3">>, <<"0", "2">>, <<"-", "0">>, <<"a">>, <<>>, <<"1", ".">> >>
+SeqWordsN == Len(SeqEnds) * Len(SeqEnds) * (Len(SeqIncs) + 1) * 2
+SeqWord(i) ==
+  LET ne == Len(SeqEnds)
+      ni == Len(SeqIncs) + 1
+      k0 == i - 1
+      ctx == k0 % 2
+      k1 == k0 \div 2
+      z == k1 % ni
+      k2 == k1 \div ni
+      y == SeqEnds[(k2 % ne) + 1]
+      x == SeqEnds[(k2 \div ne) + 1]
+      body == <<"{">> \o x \o <<".", ".">> \o y \o (IF z = 0 THEN <<>> ELSE <<".", ".">> \o SeqIncs[z]) \o <<"}">>
+  IN IF ctx = 0 THEN body ELSE <<"x">> \o body \o <<"y">>
+\* the share of the state whose word is the k-th symbol alone
+SeqSlice(k, n) ==
+  LET r == IF k % n = 0 THEN n ELSE k % n
+      cnt == IF r > SeqWordsN THEN 0 ELSE ((SeqWordsN - r) \div n) + 1
+  IN [j \in 1..cnt |-> [menu |-> TRUE] @@ Vec(SeqWord(r + (j - 1) * n))]
+
 Children == [i \in 1..Len(Alphabet) |-> Vec(Append(w, Alphabet[i]))]
-Batch == IF w = <<>> THEN <<Vec(w)>> \o Children ELSE Children
+Batch == IF w = <<>> THEN <<Vec(w)>> \o Children \o (IF Menus THEN MenuVecs ELSE <<>>)
+         ELSE IF Menus /\ Len(w) = 1
+              THEN Children \o SeqSlice(CHOOSE k \in 1..Len(Alphabet) : Alphabet[k] = w[1], Len(Alphabet))
+              ELSE Children
 \* invariant: every law holds on every word of the batch; the batch is emitted as one line
 CheckAndEmit ==
   LET b == Batch IN
   /\ \A i \in 1..Len(b) : "lawbroken" \notin DOMAIN b[i]
   /\ PrintT(<<"VEC", ToJson(b)>>)
+  /\ ((w = <<>> /\ Menus) => LET sv == SymVecs IN
+                   /\ \A i \in 1..Len(sv) : sv[i].lawok
+                   /\ PrintT(<<"SYM", ToJson(sv)>>))
 \* the same for simulation: only the current word
 CheckAndEmitOne ==
   LET v == Vec(w) IN "lawbroken" \notin DOMAIN v /\ PrintT(<<"VEC", ToJson(<<v>>)>>)
